@@ -36,15 +36,20 @@ from vt.run import quiet
 
 ID = "C15"
 SHARDS = {"quick": 16, "thorough": 16}
-RULE = ("(a) one-op functions for every arith op / cmpi, cmpf predicate: exhaustive operand tuples for i1..i4 "
-        "(thorough i1..i6), 21+ boundary values squared and Hypothesis-random operands for i8,i16,i32,i64 and "
-        "index (32/64 bit), 46 special bit patterns squared and random floats for f32,f64; (b) progen "
-        "func/arith/scf/cf programs restricted to interpreter-implemented ops, 4 input vectors each, a second "
-        "campaign steers around the known defects (no unsigned predicates, shli, f32). Oracle: vt.refsem; "
-        "results compared as bit patterns of the result type and against xDSL's signless range; refsem POISON/UB "
-        "inputs excluded. Non-trivial: an integer operand/result has its top bit set, or a float operand/result "
-        "is NaN/inf/-0.0/subnormal or the exact result needs rounding; programs: same over arguments and "
-        "results, or a loop body executed at least once.")
+RULE = ("(a) one-op functions for every arith op / cmpi, cmpf predicate run through Interpreter.call_op: exhaustive "
+        "operand tuples for i1..i4 (thorough i1..i6), 21+ boundary values squared and Hypothesis-random operands "
+        "for i8,i16,i32,i64 and index (index_bitwidth 32 and 64), 46 special bit patterns squared and random "
+        "floats for f32,f64, constants at boundary values; ops the interpreter does not implement are discarded. "
+        "(b) progen func/arith/scf/cf programs restricted to the interpreter-implemented ops (probed), 4 input "
+        "vectors each, index_bitwidth 32 and 64; a second campaign steers around the known defects (signed "
+        "predicates only, no shli, no f32) so that they do not mask anything behind them. Oracle: vt.refsem; "
+        "inputs in the interpreter's canonical signed form; results compared as bit patterns of the result type "
+        "and against xDSL's signless range [-2^(w-1), 2^w); inputs on which refsem yields POISON/UB (also for an "
+        "unused intermediate) are excluded and counted. A wrong program result is attributed to the first op "
+        "that disagrees with refsem on the interpreter's own operands, else to the control-flow op where the two "
+        "execution traces diverge. Non-trivial: an integer operand/result has its top bit set, a float "
+        "operand/result is NaN/inf/-0.0/subnormal or the exact result needs rounding; programs: same over "
+        "arguments and results, or a loop body executed at least once.")
 ASSUMPTIONS = ["vt.refsem implements the MLIR arith/scf/cf/func semantics (self-test table of 188 hand-computed cases "
                "is run once per process)",
                "the interpreter's canonical input form for signless integers is the signed value "
